@@ -40,7 +40,7 @@ PY
     ;;
 esac
 case "$ID" in
-  C01|C02|C05|C18)
+  C01|C02|C03|C05|C18)
     cd /verif/realfs || exit 2
     mkdir -p target
     if ! cargo build --release --offline >target/build.log 2>&1; then
